@@ -1041,7 +1041,7 @@ fn main() {
         let max_len = match zone {
             0 => if thorough { 4 } else { 3 },
             1 => if thorough { 3 } else { continue },
-            _ => 3,
+            _ => if thorough { 3 } else { 2 },
         };
         let za = zone_alphabet(zone, alpha.len());
         let mut hs: Vec<Vec<usize>> = vec![vec![]];
@@ -1078,7 +1078,7 @@ fn main() {
     ctx.set("second_crash_after_histories_up_to", json!(plan.second_crash_max_hist));
     ctx.set_rule(
         "every history of <= L signed UPDATE messages over a 12-message alphabet (1-3 update RRs, a rejected update, a no-op, a SOA replacement; \
-         L = 3 quick / 4 thorough) from a freshly persisted zone (3 RRs at serial 5; thorough also 6 RRs, histories <= 3), plus every history of <= 3 \
+         L = 3 quick / 4 thorough) from a freshly persisted zone (3 RRs at serial 5; thorough also 6 RRs, histories <= 3), plus every history of <= 2 (quick) / <= 3 (thorough) \
          messages over a 5-message sub-alphabet from the 3-RR zone at serials 0, 1, 2^31-1, 2^31, 2^32-2 and 2^32-1 (the serial crosses 2^31, wraps \
          at 2^32 and passes through 0; all serial comparisons in RFC 1982 arithmetic, serials exactly 2^31 apart not judged), on the real Catalog -> \
          SqliteZoneHandler with a file-backed journal; for each history EVERY durable row count observed by a second connection at every \
